@@ -36,7 +36,13 @@ def gen_program(rng, tier, force=None):
     f = dict(
         module=rng.random() < 0.7, typedef=rng.random() < 0.3, members=rng.random() < 0.6,
         assoc=rng.random() < 0.5, defs=rng.random() < 0.35, two=rng.random() < 0.6, modvar=rng.random() < 0.7,
+        doc=rng.random() < 0.5, attr=rng.random() < 0.45,
     )
+    # the attribute-rich procedure: prefix x BIND(C, name=…) x function/result clause
+    att = dict(prefix=rng.choice(['', '', 'pure', 'elemental', 'recursive', 'pure']), bind=rng.random() < 0.6,
+               func=rng.random() < 0.5, result=rng.random() < 0.6, doc=rng.randint(0, 1))
+    if att['prefix'] == 'elemental':
+        att['bind'] = False      # an elemental procedure cannot have a language binding (fparser rejects it)
     if force:
         f.update(force)
     if not f['module']:
@@ -50,8 +56,13 @@ def gen_program(rng, tier, force=None):
         defs = ('module d_mod\n  implicit none\n  real :: dg\ncontains\n  subroutine ext(w)\n    real, intent(inout) :: w\n'
                 '    w = w + dg\n  end subroutine ext\nend module d_mod\n')
     ind = '  ' if f['module'] else ''
+    def doc(k, ind_):
+        # one line only: two adjacent comment lines form a CommentBlock, whose inner Comment objects clone() shares (known class
+        # clone-shares-commentblock-comments; the heap model has no cell field for them, so such inputs stay out of the correspondence)
+        return [f'{ind_}! documentation of {k}'] if f['doc'] else []
+
     if f['module']:
-        L += ['module m_mod']
+        L += ['module m_mod'] + doc('m_mod', '  ')
         if f['defs']:
             L += ['  use d_mod, only: ext, dg']
         L += ['  implicit none']
@@ -62,7 +73,7 @@ def gen_program(rng, tier, force=None):
         L += ['contains']
 
     def routine(name, callee, with_members):
-        R = [f'subroutine {name}(x, n)']
+        R = [f'subroutine {name}(x, n)'] + doc(name, '  ')
         if f['defs'] and not f['module']:
             R += ['  use d_mod, only: ext, dg']
         R += ['  integer, intent(in) :: n', '  real, intent(inout) :: x(n)']
@@ -80,23 +91,43 @@ def gen_program(rng, tier, force=None):
         if f['defs']:
             R += ['  call ext(x(1))']
         if with_members:
-            R += [f'  call {name}_in(x(1))', 'contains', f'  subroutine {name}_in(z)', '    real, intent(inout) :: z',
+            R += [f'  call {name}_in(x(1))', 'contains', f'  subroutine {name}_in(z)'] + doc(name + '_in', '    ') + ['    real, intent(inout) :: z',
                   '    real :: w', f'    w = {loc[0]}', '    z = z + x(2) + w' + (' + g' if f['modvar'] else ''),
                   f'  end subroutine {name}_in']
         R += [f'end subroutine {name}']
         return [ind + r for r in R]
 
+    def attr_routine():
+        pre = (att['prefix'] + ' ') if att['prefix'] else ''
+        bind = " bind(c, name='p_att_c')" if att['bind'] else ''
+        dl = [f'  ! attribute doc {j}' for j in range(att['doc'])]
+        if att['func']:
+            res = 'r_att' if att['result'] else 'p_att'
+            R = [f'{pre}function p_att(i)' + (' result(r_att)' if att['result'] else '') + bind] + dl + \
+                ['  integer, intent(in) :: i', f'  integer :: {res}', f'  {res} = 2*i', 'end function p_att']
+        else:
+            R = [f'{pre}subroutine p_att(i, k)' + bind] + dl + \
+                ['  integer, intent(in) :: i', '  integer, intent(out) :: k', '  k = 2*i', 'end subroutine p_att']
+        return [ind + r for r in R]
+
     names = ['s_one']
+    if f['attr'] and f['module']:
+        L += attr_routine()
     if f['two'] and f['module']:
         L += routine('s_two', None, False)
         names.append('s_two')
     L += routine('s_one', 's_two' if (f['two'] and f['module']) else None, f['members'])
     if f['module']:
         L += ['end module m_mod']
+    elif f['attr']:
+        # a bare file: the attribute-rich procedure alone
+        L = attr_routine()
     src = '\n'.join(L) + '\n'
     targets = []
     if f['module']:
-        targets += ['m_mod', 'm_mod', 's_one'] + (['s_two'] if 's_two' in names else [])
+        targets += ['m_mod', 'm_mod', 's_one'] + (['s_two'] if 's_two' in names else []) + (['p_att', 'p_att'] if f['attr'] else [])
+    elif f['attr']:
+        return dict(src=src, defs='', targets=['p_att'], feats=dict(f, members=False, defs=False, assoc=False))
     else:
         targets += ['s_one']
     if f['members']:
@@ -147,7 +178,10 @@ def split_children(node):
 
 
 def sections(u):
-    return [s for s in (u.spec, getattr(u, 'body', None) if isinstance(u, Subroutine) else None, u.contains) if s is not None]
+    """spec, body, contains, then the docstring nodes (`unit.docstring` is a tuple of Comment/CommentBlock nodes that `clone` rebuilds
+    like the sections; they come last so that the spec stays the first section)"""
+    return [s for s in (u.spec, getattr(u, 'body', None) if isinstance(u, Subroutine) else None, u.contains) if s is not None] + \
+        [d for d in (u.docstring or ()) if isinstance(d, irn.Node)]
 
 
 def section_names(u):
@@ -158,6 +192,33 @@ def section_names(u):
         out.append('body')
     if u.contains is not None:
         out.append('contains')
+    return out + ['doc' for d in (u.docstring or ()) if isinstance(d, irn.Node)]
+
+
+def unit_attrs(u):
+    """the plain constructor attributes of a unit as strings (model: `attrs` of the unit cell)"""
+    out = [type(u).__name__]
+    if isinstance(u, Subroutine):
+        out += ['prefix=' + ','.join(str(x) for x in u.prefix), 'bind=' + str(u.bind), 'args=' + ','.join(u._dummies)]
+        if u.is_function:
+            out += ['result=' + str(u.result_name)]
+    if isinstance(u, Module):
+        out += ['access=' + str(u.default_access_spec), 'public=' + ','.join(u.public_access_spec),
+                'private=' + ','.join(u.private_access_spec)]
+    return out
+
+
+def comments_below(u):
+    """the Comment nodes of a unit (not of its members) in pre-order over the sections incl. the docstring"""
+    out = []
+
+    def rec(n):
+        if isinstance(n, irn.Comment):
+            out.append(n)
+        for k in split_children(n)[0]:
+            rec(k)
+    for sec in sections(u):
+        rec(sec)
     return out
 
 
@@ -271,7 +332,7 @@ class Export:
     def fill_unit(self, u, tag, own):
         t = 1 if (tag == 1 or u is own) else 0
         self.cells[self.addr[id(u.symbol_attrs)]] = [t, self.tab_cell(u.symbol_attrs)]
-        self.cells[self.addr[id(u)]] = [t, [A('unit'), isinstance(u, Module), u.name, self.a(u.parent), self.a(u.symbol_attrs),
+        self.cells[self.addr[id(u)]] = [t, [A('unit'), isinstance(u, Module), u.name, unit_attrs(u), self.a(u.parent), self.a(u.symbol_attrs),
                                             [self.a(s) for s in sections(u)], [self.a(mu) for mu in members(u)]]]
         for s in sections(u):
             self.fill_node(s, t)
@@ -386,7 +447,7 @@ def render_node(n):
 
 
 def render_unit(u):
-    out = [A('<'), [A('n'), u.name]] + [[A('e'), k, tcode(v)] for k, v in dict.items(u.symbol_attrs)]
+    out = [A('<'), [A('n'), u.name]] + [[A('n'), a] for a in unit_attrs(u)] + [[A('e'), k, tcode(v)] for k, v in dict.items(u.symbol_attrs)]
     for s in sections(u):
         out += render_node(s)
     for mu in members(u):
@@ -449,6 +510,11 @@ class Run:
             u.body = ir.Section(body=tuple(stmts))
         elif o == 'addvar':
             u.variables += (Variable(name=args[0], type=type_of_code(int(str(args[1]))), scope=u),)
+        elif o == 'touch':
+            cs = comments_below(u)
+            j = int(str(args[0]))
+            if j < len(cs):
+                cs[j]._update(text=args[1])
         elif o == 'retypenode':
             k = int(str(args[0]))
             nodes = [n for s in sections(u) for n in scoped_below(s)]
@@ -479,8 +545,96 @@ def has_typedef(u):
     return False
 
 
+def typedef_reach(u, env):
+    """ids of the mutable objects reachable from the TypeDef nodes of the unit tree (what class clone-shares-typedef may share)"""
+    ids = set()
+    for x in own_scopes(u):
+        if isinstance(x, irn.TypeDef):
+            ids |= set(mutable(walk(x, env)))
+    return ids
+
+
+ATTR_NAMES = ('name', 'prefix', 'bind', '_dummies', 'is_function', 'result_name', 'default_access_spec', 'public_access_spec',
+              'private_access_spec', '_incomplete')
+
+
+def attr_record(u):
+    """every plain (non-IR) constructor attribute of a unit, the docstring text, recursively for contained units"""
+    rec = {k: repr(getattr(u, k)) for k in ATTR_NAMES if hasattr(u, k)}
+    rec['class'] = type(u).__name__
+    rec['docstring'] = repr([fgen(d) for d in (u.docstring or ())])
+    rec['members'] = [attr_record(mu) for mu in members(u)]
+    return rec
+
+
+def overrides_for(u):
+    """(keyword, value, attribute, expected repr) for every constructor attribute clone() accepts as an override"""
+    out = [('name', 'ovr_name', 'name', repr('ovr_name')),
+           ('docstring', (irn.Comment(text='! ovr doc'),), 'docstring', repr(['! ovr doc']))]
+    if isinstance(u, Subroutine):
+        out += [('prefix', ('IMPURE',), 'prefix', repr(('IMPURE',))),
+                ('bind', sym.StringLiteral('ovr_c'), 'bind', repr(sym.StringLiteral('ovr_c'))),
+                ('args', tuple(u._dummies[:1]), '_dummies', repr(tuple(u._dummies[:1])))]
+        if u.is_function:
+            out += [('result_name', 'ovr_res', 'result_name', repr('ovr_res'))]
+    if isinstance(u, Module):
+        out += [('default_access_spec', 'private', 'default_access_spec', repr('private')),
+                ('public_access_spec', ('ovr_pub',), 'public_access_spec', repr(('ovr_pub',)))]
+    return out
+
+
+def inplace_edit(n, text):
+    """an in-place edit (`_update`) of one IR node that changes the code generated for it; False if the class is not handled"""
+    if isinstance(n, irn.Comment):
+        n._update(text=text)
+    elif isinstance(n, irn.CommentBlock):
+        n._update(comments=(irn.Comment(text=text),) + tuple(n.comments[1:]))
+    elif isinstance(n, irn.Assignment):
+        n._update(rhs=sym.IntLiteral(7))
+    elif isinstance(getattr(n, 'body', None), tuple) and not isinstance(n, irn.Interface):
+        n._update(body=(irn.Comment(text=text),) + tuple(b for b in n.body))
+    else:
+        return False
+    return True
+
+
+def sweep_nodes(u, cap=3):
+    """nodes to edit in place: every docstring node, and per other section the first `cap` editable nodes in pre-order"""
+    out = []
+    for name, sec in zip(section_names(u), sections(u)):
+        found = []
+
+        def rec(n):
+            found.append(n)
+            for k in split_children(n)[0]:
+                rec(k)
+        rec(sec)
+        out += found if name == 'doc' else found[:cap]
+    for mu in members(u):
+        out += sweep_nodes(mu, cap=2)
+    return out
+
+
 K_TYPEDEF = 'clone-shares-typedef'
 K_REREG = 'clone-reregisters-in-parent'
+K_CBLOCK = 'clone-shares-commentblock-comments'
+
+
+def commentblock_comments(u):
+    """ids of the Comment objects held by the CommentBlock nodes of the unit tree (docstring, spec, body, members):
+    `CommentBlock._traversable` is empty, so the Transformer rebuilds the block but keeps these very objects"""
+    ids = set()
+
+    def rec(n):
+        if isinstance(n, irn.CommentBlock):
+            ids.update(id(c) for c in n.comments)
+        for k in split_children(n)[0]:
+            rec(k)
+    for sec in sections(u):
+        rec(sec)
+    for mu in members(u):
+        ids.update(commentblock_comments(mu))
+    return ids
 
 
 def refers_to_itself(u):
@@ -505,7 +659,7 @@ def gen_ops(rng, orig, n):
             vis += list(dict.keys(p.symbol_attrs))
             p = p.parent
         vis = [v for v in vis if '%' not in v]
-        kind = rng.choice(['rename', 'retype', 'retype', 'setsec', 'addvar', 'retypenode'])
+        kind = rng.choice(['rename', 'retype', 'retype', 'setsec', 'addvar', 'retypenode', 'touch', 'touch'])
         if kind == 'rename':
             ops.append([side, A('rename'), path, rng.choice(['renamed', 'other_name', u.name + '_x'])])
         elif kind == 'retype' and names:
@@ -520,6 +674,10 @@ def gen_ops(rng, orig, n):
         elif kind == 'addvar' and u.spec is not None:
             fresh += 1
             ops.append([side, A('addvar'), path, f'nv{fresh}', tcode(rng.choice(TYPES)())])
+        elif kind == 'touch':
+            cs = comments_below(u)
+            if cs:
+                ops.append([side, A('touch'), path, rng.randrange(len(cs)), f'! touched {len(ops)}'])
         elif kind == 'retypenode':
             nodes = [x for s in sections(u) for x in scoped_below(s)]
             if nodes:
@@ -569,14 +727,15 @@ class C17(Prop):
     props_module = 'LokiModel.Props.C17'
     findings_module = 'LokiModel.Findings.C17'
     driver = 'Drivers/C17.lean'
-    theorems = ['clone_inv', 'clone_scoped', 'clone_parents', 'clone_footprint_disjoint_partial', 'clone_struct_disjoint',
+    theorems = ['clone_inv', 'clone_scoped', 'clone_parents', 'clone_attrs', 'clone_footprint_disjoint_partial', 'clone_struct_disjoint',
                 'noninterference', 'noninterference_cells', 'copyEnts_tdef']
     design_ref = 'DESIGN.md 4.B C17'
     level = 'proof'
     level_text = ('Full strength, for all heaps with the ownership invariant, all units, all fuel values and all edit histories: '
                   'clone_inv (clone keeps every owner tag, allocates only cells whose strong references stay in the clone and whose weak '
                   'references go to the clone or the environment), clone_scoped / clone_parents (no symbol, parent or table parent of the '
-                  'clone points into the original, given every name is declared in the new chain), noninterference (any op history on one '
+                  'clone points into the original, given every name is declared in the new chain), clone_attrs (clone without overrides keeps kind, '
+                  'name, parent and the attribute record prefix/bind/arguments/result name/access specs), noninterference (any op history on one '
                   'side leaves render of the other side unchanged and re-establishes the hypotheses; noninterference_cells: the other '
                   "side's cells are not even written). _partial: clone_footprint_disjoint_partial needs TdefClosed (typedef links respect "
                   'ownership), which fails exactly in the known class clone-shares-typedef (Findings: witness); clone_struct_disjoint is '
@@ -591,22 +750,26 @@ class C17(Prop):
     rule = ('generated Fortran units (module with optional derived type / module variables / imports from a definitions module / two '
             'routines calling each other, routines with member procedures and ASSOCIATE blocks, or a bare subroutine); the target '
             '(module, contained routine, member) is cloned and 0-5 random ops (rename, retype, body replacement, variables +=, '
-            'scoped-node table update, on the unit or a member) hit either copy; non-trivial = at least one op; distinct = feature '
+            'scoped-node table update, in-place comment edit, on the unit or a member) hit either copy; units carry one-line docstrings and a '
+            'procedure with prefix x BIND(C) x result clause; the oracle also clones with an override per constructor attribute and edits '
+            'nodes of every section in place; non-trivial = at least one op; distinct = feature '
             'vector, target and op list')
     trusted_base = ['exporter real objects -> heap cells (harness/props/c17.py)', 'heap walker (follows __dict__, slots, containers, '
                     'pymbolic init args; not weakrefs)', 'Loki FP frontend builds the objects']
     assumptions = ['names are compared lower-cased without dimensions', 'type codes identify SymbolAttributes by repr (crc32)',
-                   'Interface bodies / program units nested anywhere but in `contains` are not generated']
+                   'Interface bodies / program units nested anywhere but in `contains` are not generated',
+                   'CommentBlock nodes (adjacent comment lines) are not generated: their inner comments are shared by clone (proposed class '
+                   'clone-shares-commentblock-comments) and the heap model has no field for them']
     extra_obligations = ['heap-walker sharing set = model reach intersection']
 
     def classes(self):
-        return [K_TYPEDEF, K_REREG]
+        return [K_TYPEDEF, K_REREG, K_CBLOCK]
 
     def canon_model(self, resp):
         return resp
 
     def gen(self, rng, tier):
-        n = dict(quick=30, thorough=400, search=200).get(tier, 30)
+        n = dict(quick=24, thorough=400, search=200).get(tier, 24)
         for i in range(n):
             req, prog, ops = build_case(rng, tier)
             feats = ''.join(k[0] for k, v in sorted(prog['feats'].items()) if v)
@@ -642,7 +805,6 @@ def oracle(req):
     """the property itself on the real objects"""
     fails = []
     r = Run(req)
-    cls = K_TYPEDEF if has_typedef(r.orig) else None
     o, c = r.orig, r.copy
     if fgen(o) != fgen(c):
         fails.append(Failure('fgen(clone) != fgen(original)', None))
@@ -663,9 +825,26 @@ def oracle(req):
     types_c = [repr(s.type) for s in all_symbols(c)]
     if types_o != types_c:
         fails.append(Failure('symbol types of the clone differ from the original', None))
+    if attr_record(o) != attr_record(c):
+        ro, rc = attr_record(o), attr_record(c)
+        diff = sorted(k for k in ro if ro[k] != rc.get(k))
+        fails.append(Failure(f'clone() without overrides changed attribute(s) {diff}: '
+                             + '; '.join(f'{k}: {ro[k]} -> {rc.get(k)}' for k in diff if k != 'members')[:200], None))
     sh = shared_objects(o, c, r.env)
     if sh:
-        fails.append(Failure('mutable objects shared by clone and original: ' + ', '.join(sorted(walker_label(x) + (':' + x.name if hasattr(x, 'name') and isinstance(x.name, str) else '') for x in sh)), cls))
+        # the known class covers exactly what hangs off the original's TypeDef nodes
+        tdr = typedef_reach(o, r.env)
+        cbc = commentblock_comments(o)
+        inblock = [x for x in sh if id(x) in cbc and id(x) not in tdr]
+        if inblock:
+            fails.append(Failure('Comment objects of a CommentBlock shared by clone and original: %d' % len(inblock), K_CBLOCK))
+        sh = [x for x in sh if id(x) not in cbc or id(x) in tdr]
+        outside = [x for x in sh if id(x) not in tdr]
+        lbl = lambda xs: ', '.join(sorted(walker_label(x) + (':' + x.name if hasattr(x, 'name') and isinstance(x.name, str) else '') for x in xs))
+        if outside:
+            fails.append(Failure('mutable objects shared by clone and original: ' + lbl(outside), None))
+        elif sh:
+            fails.append(Failure('mutable objects shared by clone and original: ' + lbl(sh), K_TYPEDEF))
     # edits on one side leave the other unchanged
     for op in r.model_req[3]:
         other = r.orig if str(op[0]) == 'c' else r.copy
@@ -676,6 +855,35 @@ def oracle(req):
         if before != after:
             fails.append(Failure(f'op {dumps(op)} on one copy changed the other', K_REREG if rereg else None))
             break
+    if any(f.cls is None for f in fails):
+        return fails
+    # clone() with an override for every constructor attribute: the override wins, everything else is carried over
+    base = attr_record(r.orig)
+    for kw, val, attr, want in overrides_for(r.orig):
+        try:
+            c2 = r.orig.clone(**{kw: val})
+        except Exception as e:  # pylint: disable=broad-except
+            fails.append(Failure(f'clone({kw}=…) raises {type(e).__name__}: {str(e)[:80]}', None))
+            continue
+        rec = attr_record(c2)
+        if rec[attr] != want:
+            fails.append(Failure(f'clone({kw}=…): attribute {attr} is {rec[attr]}, not the override {want}', None))
+        other = sorted(k for k in base if k not in (attr, 'members') and base[k] != rec.get(k))
+        if kw == 'args':
+            other = [k for k in other if k != 'docstring']
+        if other:
+            fails.append(Failure(f'clone({kw}=…) also changed {other}: ' + '; '.join(f'{k}: {base[k]} -> {rec.get(k)}' for k in other)[:160], None))
+        if any(f.cls is None for f in fails):
+            return fails
+    # in-place edits (`_update`) of IR nodes in every section incl. the docstring, on either copy: the other copy's code stays
+    for side, this, other in (('clone', r.copy, r.orig), ('original', r.orig, r.copy)):
+        for k, n in enumerate(sweep_nodes(this)):
+            before = fgen(other)
+            if not inplace_edit(n, f'! edited in place {k}'):
+                continue
+            if fgen(other) != before:
+                fails.append(Failure(f'in-place edit of a {type(n).__name__} node of the {side} changed the code of the other copy', None))
+                return fails
     return fails
 
 
